@@ -235,8 +235,46 @@ def run_schedules(ctx, sched, tags='verif', label=None):
     trace = ctx.path('trace-run-%s.ndjson' % label)
     r = sh([h, 'run', '-in', sched, '-out', trace])
     if r.returncode != 0:
-        raise Infra('runner failed on %s:\n%s' % (sched, r.stdout[-3000:]))
+        info = salvage_run_crash(ctx, h, sched, trace, label)
+        if info is None:
+            raise Infra('runner failed on %s:\n%s\n...\n%s' % (sched, r.stdout[:1500], r.stdout[-1500:]))
+        raise Crashed(info)
     return trace
+
+
+def salvage_run_crash(ctx, h, sched, trace, label):
+    """The runner died on one schedule of a file: replay that schedule alone with flushed trace lines."""
+    pp = trace + '.progress'
+    if not os.path.exists(pp):
+        return None
+    try:
+        k = int(open(pp).read().strip())
+        line = [l for l in open(sched) if l.strip()][k]
+        header = json.loads(line)
+    except (ValueError, IndexError):
+        return None
+    cs = ctx.path('crash-sched-%s.ndjson' % label)
+    ct = ctx.path('crash-trace-%s.ndjson' % label)
+    with open(cs, 'w') as f:
+        f.write(json.dumps(header) + '\n')
+    r = sh([h, 'run', '-in', cs, '-out', ct], env=dict(os.environ, VERIF_FLUSH='1'), timeout=900)
+    if r.returncode == 0:
+        return None
+    good = []
+    if os.path.exists(ct):
+        for l in open(ct):
+            try:
+                json.loads(l)
+                good.append(l if l.endswith('\n') else l + '\n')
+            except ValueError:
+                break
+    with open(ct, 'w') as f:
+        f.writelines(good)
+    first, frame = crash_site(r.stdout)
+    ops = header.get('ops', [])
+    nops = max(0, len(good) - 1)
+    return dict(sched=cs, trace=ct, lines=len(good), nops=nops, last_op=ops[nops] if nops < len(ops) else None, first=first,
+                frame=frame, library=frame.startswith('github.com/mlange-42/arche/'), text=r.stdout[:2500], schedule=header)
 
 
 def validate(ctx, trace, module='TraceAbs.tla', cfg='TraceAbs.cfg', timeout=900, strict=False):
